@@ -1249,8 +1249,10 @@ func (g *gen) genMethod(c *Controller, idx int) Method {
 			}
 		}
 		if len(grp) == 3 {
-			if len(m.Params) == 0 || g.chance(0.5) {
-				m.Params = append(m.Params, Param{GoName: "gd", In: "query", Type: Prim(g.pick([]string{"string", "int"}))})
+			// ... followed by a field of its own with the same type, then everything else
+			grp = append(grp, Param{GoName: "gd", In: "query", Type: Prim("string"), OwnField: true})
+			for i := range m.Params {
+				m.Params[i].OwnField = true
 			}
 			m.Params = append(grp, m.Params...)
 			m.GroupParams = true
